@@ -6071,8 +6071,14 @@ class Choice:
             return
 
         if self._user_selection is not None:
+            user_selection = self._user_selection
             for sym in self.syms:
                 self.kconfig.set_value_and_source(sym, sym.bool_value, self.kconfig.filename)
+            # User-setting the member that is selected right now must not replace the pick the file recorded:
+            # that member may only be invisible at the moment and has to win again once it is visible.
+            if self._user_selection is not user_selection:
+                self._user_selection = user_selection
+                self._rec_invalidate()
             # In this case, we did not resolve "defaults", but the flag can still be used.
             self._defaults_resolved = True
             return
